@@ -214,6 +214,34 @@ def physical_job(job):
     return out
 
 
+def sweep_job(job):
+    """Numerical: one spectral-density object re-used across a sweep (a parameter changed between the points, a new Bath and
+    GibbsTempo per point, imaginary-time grids that coincide between the points) gives at every point the state of freshly
+    built objects."""
+    import oqupy
+    attr, points = job
+    h, o = np.diag([0.3, -0.2, 0.1]), np.diag([1.0, 0.3, -0.5])
+    base = {"alpha": 0.15, "zeta": 1.0, "cutoff": 2.5, "cutoff_type": "exponential", "temperature": 1.0}
+    out = []
+    try:
+        shared = oqupy.PowerLawSD(**base)
+        for value, n in points:
+            setattr(shared, attr, value)
+            g = oqupy.GibbsTempo(oqupy.System(h), oqupy.Bath(o, shared), oqupy.GibbsParameters(n_steps=n, epsrel=1e-11))
+            g.compute(progress_type="silent")
+            got = np.array(g.get_state())
+            f = oqupy.GibbsTempo(oqupy.System(h), oqupy.Bath(o, oqupy.PowerLawSD(**dict(base, **{attr: value}))),
+                                 oqupy.GibbsParameters(n_steps=n, epsrel=1e-11))
+            f.compute(progress_type="silent")
+            want = np.array(f.get_state())
+            if np.max(np.abs(got - want)) > 1e-9:
+                out.append({"what": "sweep-point-differs-from-fresh-objects", "attribute": attr, "value": value, "n_steps": n,
+                            "err": float(np.max(np.abs(got - want)))})
+    except Exception as ex:  # pylint: disable=broad-except
+        out.append({"what": "exception", "detail": "%s: %s" % (type(ex).__name__, str(ex)[:160])})
+    return out
+
+
 def run(ctx):
     quick = ctx.tier == "quick"
     for m in PMATS:
@@ -281,6 +309,11 @@ def run(ctx):
         ctx.case({"check": "non-commuting, physical + parameters re-used", "model": j[0], "n_steps": j[1], "T": j[2]})
         for x in mm:
             ctx.violation("C11:physical:%s" % x["what"], "%s: %s" % (j, x), {"physical": list(j)})
+    wjobs = [("temperature", [(0.5, 8), (1.0, 4), (2.0, 2), (1.0, 4)]), ("alpha", [(0.05, 4), (0.3, 4), (0.15, 4)])]
+    for j, mm in zip(wjobs, core.pmap(sweep_job, wjobs)):
+        ctx.case({"check": "sweep with one spectral-density object", "attribute": j[0], "points": j[1]}, nontrivial=True)
+        for x in mm:
+            ctx.violation("C11:sweep:%s" % x["what"], "%s: %s" % (j, x), {"sweep": [j[0], j[1]]})
     ctx.rule = ("zero-coupling: 4 Gaussian-integer propagators (real and complex, d=2,3) x n_steps x T; commuting models: "
                 "3 coupling/energy patterns x n_steps with the lattice bath; all histories of <= 3 compute/get_state calls; "
                 "non-trivial zero-coupling = complex P")
@@ -301,6 +334,8 @@ def replay(ctx, rep):
         mm = physical_job(tuple(c["physical"]))
     elif "slices" in c:
         mm = slice_count_job(tuple(c["slices"]))
+    elif "sweep" in c:
+        mm = sweep_job((c["sweep"][0], [tuple(x) for x in c["sweep"][1]]))
     else:
         mm = numeric_job(tuple(c["numeric"]))
     ctx.case({"replay": True})
